@@ -3,6 +3,7 @@
 package sim
 
 import (
+	"bufio"
 	"fmt"
 	"os"
 	"os/exec"
@@ -53,6 +54,7 @@ func s4SetMode(mode string) {
 }
 
 type s4worker struct {
+	randomExisting string // Random returned an existing group (its path)
 	id      int
 	gid     int
 	grant   chan syscall.Errno
@@ -323,6 +325,10 @@ func c20Run(c *vcore.Ctx) *vcore.Violation {
 					w.log = append(w.log, fmt.Sprintf("%s -> error %v", o, err))
 					continue
 				}
+				if op == "random" && h.Existing() {
+					// Random promises a new group: a name that turned out to be taken must be drawn again
+					w.randomExisting = s4RelOf(h, prefix)
+				}
 				sh := &s4handle{cg: h, created: !h.Existing(), by: w.id, op: op}
 				if rel == "" {
 					// Random: recover the name from the handle's printed form
@@ -364,6 +370,11 @@ func c20Run(c *vcore.Ctx) *vcore.Violation {
 	for _, w := range sched.workers {
 		for _, l := range w.log {
 			c.Logf("w%d: %s", w.id, l)
+		}
+	}
+	for _, w := range sched.workers {
+		if w.randomExisting != "" {
+			return vcore.Violate(prop, "random_returned_existing_group", mode+"/random", "Random returned the already existing group %s to worker %d (two callers now share one group's limits and readings)", strings.TrimPrefix(w.randomExisting, prefix), w.id)
 		}
 	}
 	exists := func(p string) bool { fi, err := os.Stat(p); return err == nil && fi.IsDir() }
@@ -472,6 +483,11 @@ func c20Run(c *vcore.Ctx) *vcore.Violation {
 	}
 	// 5. AddProc moves exactly the given process; limits read back (sequential part, real hierarchies)
 	if root != nil {
+		if mode == "v1" && src.Bool(1, 6, "foreign_namespace_creator") {
+			if v := c20ForeignNamespace(c, prefix); v != nil {
+				return v
+			}
+		}
 		if v := c20ProcAndLimits(c, mode, root, prefix, ctrls); v != nil {
 			return v
 		}
@@ -537,7 +553,8 @@ func c20ProcAndLimits(c *vcore.Ctx, mode string, root cgroup.Cgroup, prefix stri
 	// two parked probes: one is added, the other must not move
 	var cmds []*exec.Cmd
 	for i := 0; i < 2; i++ {
-		cmd := exec.Command(probePath, "pause")
+		// (a process with several threads: "that process" means all of them)
+		cmd := exec.Command(probePath, "thread", "1", "pause", "thread", "1", "pause", "pause")
 		if err := cmd.Start(); err != nil {
 			vcore.Harnessf("start probe: %v", err)
 		}
@@ -550,12 +567,27 @@ func c20ProcAndLimits(c *vcore.Ctx, mode string, root cgroup.Cgroup, prefix stri
 		}
 	}()
 	target, other := cmds[0].Process.Pid, cmds[1].Process.Pid
+	for i := 0; i < 200; i++ { // until the target has started its threads
+		if ts, _ := os.ReadDir(fmt.Sprintf("/proc/%d/task", target)); len(ts) >= 3 {
+			break
+		}
+		time.Sleep(2 * time.Millisecond)
+	}
 	before, _ := os.ReadFile(fmt.Sprintf("/proc/%d/cgroup", other))
 	if err := g.AddProc(target); err != nil {
 		return vcore.Violate(prop, "addproc_failed", mode, "AddProc(%d) failed: %v", target, err)
 	}
-	data, _ := os.ReadFile(fmt.Sprintf("/proc/%d/cgroup", target))
 	want := "/" + filepath.Join(prefix, "procs")
+	var data []byte
+	tasks, _ := os.ReadDir(fmt.Sprintf("/proc/%d/task", target))
+	for _, t := range tasks {
+		b, _ := os.ReadFile(fmt.Sprintf("/proc/%d/task/%s/cgroup", target, t.Name()))
+		data = append(data, b...)
+	}
+	if len(tasks) < 3 {
+		// the probe's threads are started before it pauses; give them a moment on a loaded machine
+		c.Probe("addproc_target_not_yet_multithreaded")
+	}
 	for _, line := range strings.Split(strings.TrimSpace(string(data)), "\n") {
 		f := strings.SplitN(line, ":", 3)
 		if len(f) != 3 {
@@ -574,7 +606,7 @@ func c20ProcAndLimits(c *vcore.Ctx, mode string, root cgroup.Cgroup, prefix stri
 			}
 		}
 		if relevant && f[2] != want {
-			return vcore.Violate(prop, "addproc_not_moved", mode, "after AddProc the process is in %q for %q, expected %q", f[2], f[1], want)
+			return vcore.Violate(prop, "addproc_not_moved", mode, "after AddProc a thread of the process is in %q for %q, expected %q", f[2], f[1], want)
 		}
 	}
 	after, _ := os.ReadFile(fmt.Sprintf("/proc/%d/cgroup", other))
@@ -864,4 +896,112 @@ func init() {
 		Thorough:    vcore.Budget{Wall: 10 * time.Minute, Shards: 8},
 		Init:        kInit, Run: c20Run, StallLimit: 120 * time.Second,
 	})
+}
+
+// ---- creators in another pid namespace ---------------------------------------------------------------
+//
+// Two daemons in two containers share the host's cgroup hierarchy and, quite possibly, their pid (both
+// are the second process of their pid namespace, like this worker). "Each group created through the
+// library is a distinct group" also between them: names drawn by Random must not be a function of
+// things that repeat across namespaces.
+
+func init() { helpers["cgrandom"] = cgRandomHelper }
+
+// cgRandomHelper (second process of a fresh pid namespace): creates N groups with Random below the given
+// parent, prints "name <path> existing=<bool>" per group, waits for a byte on stdin, destroys them.
+func cgRandomHelper() int {
+	prefix, n := os.Getenv("VERIF_CG_PARENT"), 3
+	fmt.Printf("pid %d\n", os.Getpid())
+	parent, err := cgroup.OpenExisting(prefix, &cgroup.Controllers{Pids: true})
+	if err != nil {
+		fmt.Printf("error open %v\n", err)
+		return 0
+	}
+	var made []cgroup.Cgroup
+	for i := 0; i < n; i++ {
+		g, err := parent.Random("run-*")
+		if err != nil {
+			fmt.Printf("error random %v\n", err)
+			continue
+		}
+		made = append(made, g)
+		fmt.Printf("name %s existing=%v\n", s4RelOf(g, prefix), g.Existing())
+	}
+	fmt.Println("done")
+	var b [1]byte
+	os.Stdin.Read(b[:])
+	for _, g := range made {
+		g.Destroy()
+	}
+	return 0
+}
+
+func c20ForeignNamespace(c *vcore.Ctx, prefix string) *vcore.Violation {
+	const prop = "C20"
+	ct := &cgroup.Controllers{Pids: true}
+	parent, err := cgroup.New(prefix+"/shared", ct)
+	if err != nil {
+		return vcore.Violate(prop, "new_failed", "v1/foreign_namespace", "New(shared) failed: %v", err)
+	}
+	defer parent.Destroy()
+	self, _ := os.Executable()
+	cmd := exec.Command("unshare", "-p", "-f", "--mount-proc", "--propagation", "private", "-m", self, "-test.run", "^TestSim$", "-test.timeout", "0")
+	var env []string
+	for _, e := range os.Environ() {
+		if !strings.HasPrefix(e, "VERIF_ROLE=") && !strings.HasPrefix(e, "VERIF_HELPER=") {
+			env = append(env, e)
+		}
+	}
+	cmd.Env = append(env, "VERIF_ROLE=nsinit", "VERIF_NSROLE=worker", "VERIF_NSHELPER=cgrandom", "VERIF_CG_PARENT="+prefix+"/shared")
+	stdin, _ := cmd.StdinPipe()
+	stdout, _ := cmd.StdoutPipe()
+	if err := cmd.Start(); err != nil {
+		vcore.Harnessf("foreign creator: %v", err)
+	}
+	defer func() { stdin.Close(); cmd.Wait() }()
+	// this worker creates its groups at the same time
+	var mine []cgroup.Cgroup
+	names := map[string]string{}
+	for i := 0; i < 3; i++ {
+		g, err := parent.Random("run-*")
+		if err != nil {
+			return vcore.Violate(prop, "new_failed", "v1/foreign_namespace", "Random failed: %v", err)
+		}
+		mine = append(mine, g)
+		if g.Existing() {
+			return vcore.Violate(prop, "random_returned_existing_group", "v1/foreign_namespace", "Random handed this process (pid %d) the existing group %s", os.Getpid(), s4RelOf(g, prefix+"/shared"))
+		}
+		names[s4RelOf(g, prefix+"/shared")] = fmt.Sprintf("this process (pid %d)", os.Getpid())
+	}
+	defer func() {
+		for _, g := range mine {
+			g.Destroy()
+		}
+	}()
+	sc := bufio.NewScanner(stdout)
+	otherPid := "?"
+	for sc.Scan() {
+		l := sc.Text()
+		f := strings.Fields(l)
+		switch {
+		case len(f) == 2 && f[0] == "pid":
+			otherPid = f[1]
+		case len(f) == 3 && f[0] == "name":
+			if who, dup := names[f[1]]; dup {
+				return vcore.Violate(prop, "two_creators_one_group", "v1/foreign_namespace", "Random gave the group %s to %s and to a creator in another pid namespace (pid %s there): the two now share limits and readings", f[1], who, otherPid)
+			}
+			if f[2] != "existing=false" {
+				return vcore.Violate(prop, "random_returned_existing_group", "v1/foreign_namespace", "Random handed the creator in the other pid namespace (pid %s) an existing group: %s", otherPid, l)
+			}
+			names[f[1]] = "the creator in the other pid namespace"
+		case strings.HasPrefix(l, "error"):
+			vcore.Harnessf("foreign creator: %s", l)
+		}
+		if l == "done" {
+			break
+		}
+	}
+	c.Logf("creators with pid %d here and pid %s in another pid namespace made %d distinct groups below one parent", os.Getpid(), otherPid, len(names))
+	c.Probe("creators_in_two_pid_namespaces")
+	return nil
 }
